@@ -185,6 +185,9 @@ class MNF:
             d, a, kw = t[1], t[2], dict(t[3])
             if d in ("numpy.linalg.inv",) and len(a) == 1:
                 return {(("inv", key(self.nf(a[0]))),): Fraction(1)}
+            if d == "numpy.linalg.pinv" and len(a) == 1 and not (set(kw) - {"hermitian", "$draw"}):
+                # over the reals the pseudo-inverse of an invertible matrix is its inverse (an explicit cut-off is judged separately)
+                return {(("inv", key(self.nf(a[0]))),): Fraction(1)}
             if d == "numpy.linalg.solve" and len(a) == 2:
                 return mul({(("inv", key(self.nf(a[0]))),): Fraction(1)}, self.nf(a[1]))
             if d in ("numpy.eye", "numpy.identity"):
